@@ -11,7 +11,7 @@ LEVEL = "exploration"
 
 def jobs(ctx, mode):
     specs = roundtrip.all_specs()
-    k = 5 if ctx.thorough else 1
+    k = 5 if ctx.thorough else 3
     out = []
     for name, spec in specs.items():
         for case in dbe.cases(spec.space, k):
